@@ -2475,6 +2475,12 @@ class NetCDFWrite(IOWrite):
 
         ncvar = kwargs["varname"]
 
+        if kwargs.get("datatype") in ("S1", str):
+            # Endianness does not apply to character and string
+            # variables, and the netCDF library refuses anything but
+            # 'native' for them.
+            kwargs["endian"] = "native"
+
         g["nc"][ncvar] = g["netcdf"].createVariable(**kwargs)
 
     def _write_grid_mapping(self, f, ref, multiple_grid_mappings):
